@@ -602,7 +602,7 @@ def sigTree (s : Scope) (extra : List (Str × Tree)) (sg : Sig) (forced : Option
 
 /-- the items (name, tree) an interface-level declaration contributes, and the new scope.
 `ifaces` = the interfaces known so far (by path as written in `use`): their exports. -/
-def denoteItem (ifaces : List (Str × List (Str × Tree))) (s : Scope) (i : Item) :
+def denoteItem (container : Str) (ifaces : List (Str × List (Str × Tree))) (s : Scope) (i : Item) :
     Option (Scope × List (Str × Tree)) :=
   match i with
   | .use path items =>
@@ -640,7 +640,9 @@ def denoteItem (ifaces : List (Str × List (Str × Tree))) (s : Scope) (i : Item
       | none => none
     | _ => (tyTree s 64 t).map fun t => ({ s with binds := s.binds ++ [(n, .val t)] }, [(n, .type t)])
   | .resource n items =>
-    let r : Res := { uid := 0, idx := s.next, name := n }
+    -- identity of the declared resource: the declaring interface (by id) and its name; inline
+    -- interfaces and worlds have no id
+    let r : Res := { uid := 0, idx := s.next, name := (if container.contains ':' then container else []) ++ ['#'] ++ n }
     let s := { s with binds := s.binds ++ [(n, .res r)], next := s.next + 1 }
     let fs := items.mapM fun it =>
       match it with
@@ -654,10 +656,10 @@ def denoteItem (ifaces : List (Str × List (Str × Tree))) (s : Scope) (i : Item
 
 /-- the exports of an interface body; the scope's `next` counter is threaded through the whole
 package so that every declared resource has its own identity -/
-def denoteItems (ifaces : List (Str × List (Str × Tree))) (next : Nat) (items : List Item) :
+def denoteItems (container : Str) (ifaces : List (Str × List (Str × Tree))) (next : Nat) (items : List Item) :
     Option (Nat × List (Str × Tree)) :=
   (items.foldlM (fun (acc : Scope × List (Str × Tree)) i =>
-    (denoteItem ifaces acc.1 i).map fun (s, out) => (s, acc.2 ++ out)) ({ next := next }, [])).map
+    (denoteItem container ifaces acc.1 i).map fun (s, out) => (s, acc.2 ++ out)) ({ next := next }, [])).map
       fun (s, out) => (s.next, out)
 
 /-- explicit imports and exports of a world -/
@@ -693,7 +695,7 @@ def denoteWorld (env : Env) (items : List WItem) : Option (Nat × WorldD) :=
   let step (acc : Scope × WorldD) (wi : WItem) : Option (Scope × WorldD) :=
     match wi with
     | .item i =>
-      (denoteItem env.ifaces acc.1 i).map fun (s, out) =>
+      (denoteItem [] env.ifaces acc.1 i).map fun (s, out) =>
         (s, { acc.2 with imports := out.foldl (fun l (n, t) => addIfAbsent l n t) acc.2.imports })
     | .externPath imp path =>
       match alGet env.ifaces path, alGet env.ids path with
@@ -707,7 +709,7 @@ def denoteWorld (env : Env) (items : List WItem) : Option (Nat × WorldD) :=
         (acc.1, if imp then { acc.2 with imports := addIfAbsent acc.2.imports n t }
                 else { acc.2 with exports := addIfAbsent acc.2.exports n t })
     | .externIface imp n its =>
-      (denoteItems env.ifaces acc.1.next its).map fun (next, ex) =>
+      (denoteItems [] env.ifaces acc.1.next its).map fun (next, ex) =>
         let t := Tree.instance (Forest.ofList ex)
         ({ acc.1 with next := next },
           if imp then { acc.2 with imports := addIfAbsent acc.2.imports n t }
@@ -728,7 +730,7 @@ def denoteWorld (env : Env) (items : List WItem) : Option (Nat × WorldD) :=
 def denotePkg (deps : List (Str × List (Str × Tree))) (next : Nat) (p : Pkg) : Option Env :=
   let env0 : Env := { ifaces := deps, ids := deps.map fun (n, _) => (n, n), next := next }
   let envI := p.ifaces.foldlM (fun (env : Env) (ni : Str × List Item) =>
-    (denoteItems env.ifaces env.next ni.2).map fun (next, ex) =>
+    (denoteItems (p.idOf ni.1) env.ifaces env.next ni.2).map fun (next, ex) =>
       let id := p.idOf ni.1
       { env with ifaces := env.ifaces ++ [(ni.1, ex), (id, ex)], ids := env.ids ++ [(ni.1, id), (id, id)], next := next }) env0
   match envI with
@@ -776,8 +778,107 @@ def normL : Forest → List (Str × Tree)
 termination_by structural f => f
 end
 
-/-- canonical form for comparison up to order of exports and choice of resource ids -/
-def canonN (t : Tree) : Tree := Wac.Spec.Decode.canon (normT t)
+def alGetNat (m : List (Nat × Str)) (k : Nat) : Option Str :=
+  match m with
+  | [] => none
+  | (k', v) :: r => if k' == k then some v else alGetNat r k
+
+mutual
+/-- resource leaves reduced to their nominal identity (`Res.name`) -/
+def nominalT : Tree → Tree
+  | .own r => .own { uid := 0, idx := 0, name := r.name }
+  | .borrow r => .borrow { uid := 0, idx := 0, name := r.name }
+  | .resource r => .resource { uid := 0, idx := 0, name := r.name }
+  | .instance f => .instance (nominalF f)
+  | .component i e => .component (nominalF i) (nominalF e)
+  | .tuple f => .tuple (nominalF f)
+  | .variant f => .variant (nominalF f)
+  | .record f => .record (nominalF f)
+  | .func a ps r => .func a (nominalF ps) (nominalT r)
+  | .list t => .list (nominalT t)
+  | .fixedList t n => .fixedList (nominalT t) n
+  | .option t => .option (nominalT t)
+  | .result a b => .result (nominalT a) (nominalT b)
+  | .stream t => .stream (nominalT t)
+  | .future t => .future (nominalT t)
+  | .value t => .value (nominalT t)
+  | .type t => .type (nominalT t)
+  | t => t
+termination_by structural t => t
+def nominalF : Forest → Forest
+  | .nil => .nil
+  | .cons n t r => .cons n (nominalT t) (nominalF r)
+termination_by structural f => f
+end
+
+/-- canonical form for comparison: order of exports irrelevant, resources identified by the
+interface (id) that declares them and their name there (inline interfaces and worlds: by name).
+An imported and an exported copy of one interface are thereby not distinguished: which copy an
+item refers to is outside the per-item comparison the property asks for. -/
+def canonN (t : Tree) : Tree := nominalT (normT t)
+
+/-- the nominal identity of every base resource of an encoding: a resource is declared where a
+type export/import introduces it (`sub resource`: referenced = created) -/
+def declaredIn (container : Str) (items : List (Str × WEnt)) (w : WTypes) : List (Nat × Str) :=
+  items.filterMap fun (n, e) =>
+    match e with
+    | .type (.res a) (.res b) =>
+      if a == b then (w.res[b]?).map fun r => (r.base, (if container.contains ':' then container else []) ++ ['#'] ++ n)
+      else none
+    | _ => none
+
+def labelsOfItems (w : WTypes) (items : List (Str × WEnt)) : List (Nat × Str) :=
+  declaredIn [] items w ++
+  items.flatMap fun (n, e) =>
+    match e with
+    | .instance i => match w.insts[i]? with
+      | some es => declaredIn n es w
+      | none => []
+    | _ => []
+
+/-- labels of one exported declaration (its wrapper component and, for a world, the world) -/
+def labelsOf (w : WTypes) (e : WEnt) : List (Nat × Str) :=
+  match e with
+  | .type _ (.component c) =>
+    match w.comps[c]? with
+    | none => []
+    | some ct =>
+      labelsOfItems w ct.imports ++ labelsOfItems w ct.exports ++
+      (ct.exports.flatMap fun (_, x) =>
+        match x with
+        | .component cw =>
+          match w.comps[cw]? with
+          | some wd => labelsOfItems w wd.imports ++ labelsOfItems w wd.exports
+          | none => []
+        | _ => [])
+  | _ => []
+
+mutual
+def relabelT (ls : List (Nat × Str)) : Tree → Tree
+  | .own r => .own { r with name := (alGetNat ls r.idx).getD ("?".toList) }
+  | .borrow r => .borrow { r with name := (alGetNat ls r.idx).getD ("?".toList) }
+  | .resource r => .resource { r with name := (alGetNat ls r.idx).getD ("?".toList) }
+  | .instance f => .instance (relabelF ls f)
+  | .component i e => .component (relabelF ls i) (relabelF ls e)
+  | .tuple f => .tuple (relabelF ls f)
+  | .variant f => .variant (relabelF ls f)
+  | .record f => .record (relabelF ls f)
+  | .func a ps r => .func a (relabelF ls ps) (relabelT ls r)
+  | .list t => .list (relabelT ls t)
+  | .fixedList t n => .fixedList (relabelT ls t) n
+  | .option t => .option (relabelT ls t)
+  | .result a b => .result (relabelT ls a) (relabelT ls b)
+  | .stream t => .stream (relabelT ls t)
+  | .future t => .future (relabelT ls t)
+  | .value t => .value (relabelT ls t)
+  | .type t => .type (relabelT ls t)
+  | t => t
+termination_by structural t => t
+def relabelF (ls : List (Nat × Str)) : Forest → Forest
+  | .nil => .nil
+  | .cons n t r => .cons n (relabelT ls t) (relabelF ls r)
+termination_by structural f => f
+end
 
 /-- the declarations exported by a package encoding: name ↦ (id, item exported by the wrapper) -/
 def wrapperOf (w : WTypes) (e : WEnt) : Option (Str × WEnt) :=
@@ -788,16 +889,17 @@ def wrapperOf (w : WTypes) (e : WEnt) : Option (Str × WEnt) :=
     | none => none
   | _ => none
 
-def declsOf (w : WTypes) : List (Str × (Str × WEnt)) :=
+def declsOf (w : WTypes) : List (Str × (WEnt × List (Nat × Str))) :=
   match w.comps[w.root]? with
   | none => []
-  | some root => root.exports.filterMap fun (n, e) => (wrapperOf w e).map fun x => (n, x)
+  | some root => root.exports.filterMap fun (n, e) => (wrapperOf w e).map fun x => (n, (x.2, labelsOf w e))
 
-def treeOf (w : WTypes) (e : WEnt) : Option Tree := Wac.Spec.Decode.entTree w (2 * w.fuel) e
+def treeOf (w : WTypes) (ls : List (Nat × Str)) (e : WEnt) : Option Tree :=
+  (Wac.Spec.Decode.entTree w (2 * w.fuel) e).map (relabelT ls)
 
 /-- difference between an interface encoding and the denoted exports -/
-def cmpInterface (w : WTypes) (e : WEnt) (spec : List (Str × Tree)) : Option String :=
-  match treeOf w e with
+def cmpInterface (w : WTypes) (ls : List (Nat × Str)) (e : WEnt) (spec : List (Str × Tree)) : Option String :=
+  match treeOf w ls e with
   | some t =>
     let a := canonN t
     let b := canonN (.instance (Forest.ofList spec))
@@ -805,7 +907,7 @@ def cmpInterface (w : WTypes) (e : WEnt) (spec : List (Str × Tree)) : Option St
   | none => some "encoding does not unfold"
 
 /-- difference between a world encoding and the denoted explicit imports/exports -/
-def cmpWorld (w : WTypes) (e : WEnt) (spec : WorldD) : Option String :=
+def cmpWorld (w : WTypes) (ls : List (Nat × Str)) (e : WEnt) (spec : WorldD) : Option String :=
   match e with
   | .component c =>
     match w.comps[c]? with
@@ -825,7 +927,7 @@ def cmpWorld (w : WTypes) (e : WEnt) (spec : WorldD) : Option String :=
         match Wac.Spec.Decode.entTrees (Wac.Spec.Decode.entTree w (2 * w.fuel)) explicit with
         | none => some "imports do not unfold"
         | some f =>
-          let a := canonN (.instance f)
+          let a := canonN (relabelT ls (.instance f))
           let b := canonN (.instance (Forest.ofList spec.imports))
           if a != b then some ("imports: " ++ (Wac.Spec.Decode.diffT a b).getD "?")
           else
@@ -834,7 +936,7 @@ def cmpWorld (w : WTypes) (e : WEnt) (spec : WorldD) : Option String :=
               match alGet ct.exports n with
               | none => some "?"
               | some ee =>
-                match treeOf w ee with
+                match treeOf w ls ee with
                 | none => some s!"export {String.ofList n} does not unfold"
                 | some t =>
                   let a := canonN t
@@ -881,14 +983,14 @@ def checkEncoding (w : WTypes) (p : Pkg) (env : Env) : Option String :=
   let decls := declsOf w
   match p.ifaces.findSome? fun (n, _) =>
       match alGet decls n, alGet env.ifaces n with
-      | some (_, e), some spec => (cmpInterface w e spec).map (s!"interface {String.ofList n}: " ++ ·)
+      | some (e, ls), some spec => (cmpInterface w ls e spec).map (s!"interface {String.ofList n}: " ++ ·)
       | none, _ => some s!"interface {String.ofList n} is not exported"
       | _, none => some s!"interface {String.ofList n} has no denotation" with
   | some e => some e
   | none =>
     p.worlds.findSome? fun (n, _) =>
       match alGet decls n, alGet env.worlds n with
-      | some (_, e), some spec => (cmpWorld w e spec).map (s!"world {String.ofList n}: " ++ ·)
+      | some (e, ls), some spec => (cmpWorld w ls e spec).map (s!"world {String.ofList n}: " ++ ·)
       | none, _ => some s!"world {String.ofList n} is not exported"
       | _, none => some s!"world {String.ofList n} has no denotation"
 
